@@ -150,6 +150,53 @@ theorem tails_sound {r : Rx} {w : List String} (hm : Matches r w) : ∀ s t, w =
       · simp only [tails, List.mem_map]; exact ⟨ts, hts, rfl⟩
       · rw [← h.2]; exact matchesSeq_snoc hm' hv
 
+/-- the possible continuations of the words that START WITH the symbol `s` -/
+def tailsOf (s : String) : Rx → List (List Rx)
+  | .eps => []
+  | .sym x => if x == s then [[]] else []
+  | .seq a b => (tailsOf s a).map (fun t => t ++ [b]) ++ (if nullable a then tailsOf s b else [])
+  | .alt a b => tailsOf s a ++ tailsOf s b
+  | .star a => (tailsOf s a).map fun t => t ++ [.star a]
+
+theorem tailsOf_sound (s : String) {r : Rx} {w : List String} (hm : Matches r w) :
+    ∀ t, w = s :: t → ∃ ts ∈ tailsOf s r, MatchesSeq ts t := by
+  induction hm with
+  | eps => intro t h; cases h
+  | sym x => intro t h; cases h; exact ⟨[], by simp [tailsOf], MatchesSeq.nil⟩
+  | @seq a b u v hu hv iha ihb =>
+    intro t h
+    cases u with
+    | nil =>
+      simp only [List.nil_append] at h
+      have hn := nullable_sound hu rfl
+      obtain ⟨ts, hts, hm'⟩ := ihb t h
+      exact ⟨ts, by simp [tailsOf, hn, hts], hm'⟩
+    | cons x u' =>
+      simp only [List.cons_append, List.cons.injEq] at h
+      obtain ⟨rfl, rfl⟩ := h
+      obtain ⟨ts, hts, hm'⟩ := iha u' rfl
+      refine ⟨ts ++ [b], ?_, matchesSeq_snoc hm' hv⟩
+      simp only [tailsOf, List.mem_append, List.mem_map]; exact Or.inl ⟨ts, hts, rfl⟩
+  | altL _ ih =>
+    intro t h
+    obtain ⟨ts, hts, hm'⟩ := ih t h
+    exact ⟨ts, by simp [tailsOf, hts], hm'⟩
+  | altR _ ih =>
+    intro t h
+    obtain ⟨ts, hts, hm'⟩ := ih t h
+    exact ⟨ts, by simp [tailsOf, hts], hm'⟩
+  | starNil => intro t h; cases h
+  | @starCons a u v _ hv iha ihs =>
+    intro t h
+    cases u with
+    | nil => simp only [List.nil_append] at h; exact ihs t h
+    | cons x u' =>
+      simp only [List.cons_append, List.cons.injEq] at h
+      obtain ⟨rfl, rfl⟩ := h
+      obtain ⟨ts, hts, hm'⟩ := iha u' rfl
+      refine ⟨ts ++ [.star a], ?_, matchesSeq_snoc hm' hv⟩
+      simp only [tailsOf, List.mem_map]; exact ⟨ts, hts, rfl⟩
+
 /-- fold a sequence back into one expression -/
 def seqOf : List Rx → Rx
   | [] => .eps
